@@ -224,12 +224,33 @@ def run(ctx):
                 out.append(dict(pushes=pushes, acks=acks, refresh_ok=ref.done() and not ref.cancelled() and bool(ref.result()),
                                 mirror=spa.struct.status_block == peer.sim.structure.status_block, slow=slow[0]))
                 slow[0] = 0.0
+            # a partial update the spa takes back without telling (its second report is lost): the next refresh returns the very image the
+            # previous refresh returned - the client must hold that image again afterwards
+            slow[0] = 0.0
+            full = lambda: GeckoStatusBlockProtocolHandler.full_request(spa._protocol.get_and_increment_sequence_counter(False), parms=spa.sendparms)  # noqa: E731
+            await spa.struct.get(spa._protocol, full)
+            image = spa.struct.status_block
+            d = b"<PACKT><SRCCN>" + session.SPA_ID + b"</SRCCN><DESCN>" + session.CLIENT_ID + b"</DESCN><DATAS>STATP\x01\x01\x13" + bytes([image[0x113] ^ 0x55, image[0x114] ^ 0x0f]) + b"</DATAS></PACKT>"
+            spa._protocol.datagram_received(d, vloop.SIMADDR)
+            await asyncio.sleep(1.0)
+            changed = spa.struct.status_block != image
+            await spa.struct.get(spa._protocol, full)
+            await asyncio.sleep(0.5)
+            out.append(dict(same_image_refresh=True, changed_by_update=changed, back_to_image=spa.struct.status_block == image,
+                            differs_at=[i for i in range(len(image)) if spa.struct.status_block[i] != image[i]][:4]))
             await cl.close()
             return out
         return vloop.run(main)
     for k in range(4 if ctx.thorough else 2):
         rounds = during_refresh(ctx.seed * 100 + k) or []
         for rd in rounds:
+            if rd.get("same_image_refresh"):
+                ctx.count("refresh_returning_the_previous_image")
+                ctx.case(("same_image_refresh", k), nontrivial=True)
+                if not rd["changed_by_update"] or not rd["back_to_image"]:
+                    ctx.fail("partial:async:refresh_after_update", "refresh, a partial update, then a refresh that returns the same image as the first: update applied=%s, client back on the image=%s (differs at %r)"
+                             % (rd["changed_by_update"], rd["back_to_image"], rd["differs_at"]), rd)
+                continue
             ctx.count("partial_updates_during_an_outstanding_refresh", len(rd["pushes"]))
             ctx.case(("during_refresh", k, str(rd["pushes"])), nontrivial=True)
             late = [(v, got) for (v, got, done) in rd["pushes"] if not done and got != v]
